@@ -49,6 +49,7 @@ def run(ctx, prog):
     ctx.rule('C20-D3', 'Exception / None are swallowed and counted exactly once; KeyboardInterrupt propagates')
     ctx.rule('C20-D4', 'run() raises before any effect when the single-use marker is set, and sets it first otherwise')
     ctx.rule('C20-D5', 'str and Path outputs both construct the writer')
+    ctx.rule('C20-D6', 'check() is a dry run: it stores into no attribute that run() or the report use')
     ctx.assume('the user function either returns (None / data) or raises Exception / KeyboardInterrupt; the ETS writer stores what it is given')
     ci = prog.need_class('scared.synchronization', 'Synchronizer')
     from .. import inline
@@ -302,7 +303,42 @@ def run(ctx, prog):
                           'str and pathlib.Path both construct the writer', chk.where(st))
     if not found:
         ctx.undecided('C20-D5', f'{chk.key}::writer branch', 'branch constructing the writer not recognised', chk.where())
+    d6(ctx, prog, ci, inline)
     ctx.floor('iteration paths', len(paths), 4)
+
+
+def d6(ctx, prog, ci, inline):
+    """check() is a dry run on a few traces: with the methods it calls inlined, it stores into no attribute that run(), the report
+    or the constructor's state use (counters, single-use marker, output): what run() produces does not depend on a check() before it"""
+    chk = prog.resolve_method(ci, 'check')
+    if chk is None:
+        return
+    body = inline.inlined(prog, chk)
+    written = {}
+    for n in ast.walk(body.node):
+        t = None
+        if isinstance(n, (ast.Attribute, ast.Subscript)) and isinstance(n.ctx, (ast.Store, ast.Del)):
+            t = n
+        elif isinstance(n, ast.Call) and isinstance(n.func, ast.Attribute) and n.func.attr in ('append', 'extend', 'update', 'clear', 'pop', 'error_occur', 'write_trace_object_and_points', 'close', 'fill', 'insert', 'remove'):
+            t = n.func.value
+        if t is None:
+            continue
+        b = t
+        while isinstance(b, (ast.Subscript, ast.Attribute)) and not (isinstance(b, ast.Attribute) and isinstance(b.value, ast.Name) and b.value.id == 'self'):
+            b = b.value
+        if isinstance(b, ast.Attribute) and isinstance(b.value, ast.Name) and b.value.id == 'self':
+            written.setdefault(b.attr, n)
+    used = set()
+    for name, g in prog.methods_closure(ci).items():
+        if name in ('check',):
+            continue
+        for n in ast.walk(g.node):
+            if isinstance(n, ast.Attribute) and isinstance(n.value, ast.Name) and n.value.id == 'self':
+                used.add(n.attr)
+    key = f'{chk.key}::dry run'
+    hit = sorted(a for a in written if a in used)
+    ctx.check(not hit, 'C20-D6', key, f'check() changes `self.{hit[0] if hit else ""}` ({norm(written[hit[0]])[:60] if hit else ""}), which run() / the report use: after a check() the run no longer starts from the '
+              'constructor\'s state (write index, counters or output are off by what check() did)', f'check() (callees inlined) stores into none of the {len(used)} attributes the other methods use', chk.where(written[hit[0]]) if hit else chk.where())
 
 
 def label(k):
